@@ -26,6 +26,7 @@ N = H.P('n', 2)                          # max len of $c
 ND = H.P('nd', 2)                        # max len of $d
 NONES = H.P('nones', 1)                  # how many null elements may be injected into $c
 MARGIN = H.P('margin', 2)               # integer arguments range over [-len-MARGIN, len+MARGIN]
+EMAX = H.P('emax', 2)                   # cases whose elements become dictionary keys: elements in 0..EMAX
 PROBE = H.P('probe_key')
 
 K_UNPACK = 'C13/unpack-lazy-first-element'
@@ -150,10 +151,10 @@ def bounds(c, d, np, np2, i, j, k, r, v, vn):
             return False
     if cs['small']:
         for x in c:
-            if not (0 <= x <= 2):
+            if not (0 <= x <= EMAX):
                 return False
         for name, val in (('i', i), ('k', k), ('r', r)):
-            if name in uses and not (-1 <= val <= 3):
+            if name in uses and not (-1 <= val <= EMAX + 1):
                 return False
     if 'k' not in uses and k != 0:
         return False
@@ -342,14 +343,16 @@ def law_group(c: List[int], np: int, k: int, it: bool) -> bool:
 def law_lists(c: List[int], np: int, i: int) -> bool:
     """
     pre: len(c) <= N and -1 <= np < len(c) and 0 <= i <= len(c) + 1
+    pre: H.P('part', 'reverse') != 'reverse' or i == 0
     post: _
     """
     t = nn(c, np)
     ok = True
     for P in (pres_tuple, pres_iter):
-        ok = ok and same(fin(M('reverse', M('reverse', P(t)))), list(t))
-        ok = ok and same(fin(M('take', P(t), i)) + fin(M('skip', P(t), i)), list(t))
-        ok = ok and same(fin(M('concat', M('take', P(t), i), M('skip', P(t), i))), list(t))
+        if H.P('part', 'reverse') == 'reverse':
+            ok = ok and same(fin(M('reverse', M('reverse', P(t)))), list(t))
+        else:
+            ok = ok and same(fin(M('take', P(t), i)) + fin(M('skip', P(t), i)), list(t))
     return H.done(ok)
 
 
@@ -391,58 +394,56 @@ def law_sets(c: List[int], d: List[int]) -> bool:
     post: _
     """
     a, b = frozenset(c), frozenset(d)
-    un, inter = fin(M('union', a, b)), fin(M('intersect', a, b))
-    diff, sym = fin(M('difference', a, b)), fin(M('symmetricDifference', a, b))
-    ok = un == fin(M('union', b, a)) and inter == fin(M('intersect', b, a))
-    ok = ok and fin(M('union', frozenset(diff), frozenset(inter))) == set(a)
-    ok = ok and len(fin(M('intersect', frozenset(diff), b))) == 0
-    ok = ok and sym == fin(M('difference', frozenset(un), frozenset(inter)))
-    ok = ok and len(un) + len(inter) == len(a) + len(b)
-    return H.done(ok)
-
-
-def law_set_order(c: List[int], d: List[int]) -> bool:
-    """
-    pre: len(c) <= N and len(d) <= N
-    post: _
-    """
-    a, b = frozenset(c), frozenset(d)
-    un = fin(M('union', a, b))
-    le = yq.ev('$a <= $b', eng=MD.ENG, a=a, b=b)
-    lt = yq.ev('$a < $b', eng=MD.ENG, a=a, b=b)
-    ok = isinstance(le, bool) and isinstance(lt, bool) and le == (un == set(b)) and lt == (le and a != b)
-    ok = ok and yq.ev('$b >= $a', eng=MD.ENG, a=a, b=b) == le and yq.ev('$b > $a', eng=MD.ENG, a=a, b=b) == lt
-    ok = ok and yq.ev('$a - $b', eng=MD.ENG, a=a, b=b) == fin(M('difference', a, b))
+    part = H.P('part', 'a')
+    if part == 'a':      # commutativity, inclusion-exclusion
+        un, inter = fin(M('union', a, b)), fin(M('intersect', a, b))
+        ok = un == fin(M('union', b, a)) and inter == fin(M('intersect', b, a))
+        ok = ok and len(un) + len(inter) == len(a) + len(b)
+    elif part == 'b':    # a = (a - b) + (a & b), disjoint
+        diff, inter = fin(M('difference', a, b)), fin(M('intersect', a, b))
+        ok = fin(M('union', frozenset(diff), frozenset(inter))) == set(a)
+        ok = ok and len(fin(M('intersect', frozenset(diff), b))) == 0
+    elif part == 'c':    # symmetric difference = union - intersection ; operator - is difference
+        un, inter = M('union', a, b), M('intersect', a, b)
+        ok = fin(M('symmetricDifference', a, b)) == fin(M('difference', un, inter))
+        ok = ok and fin(F('#operator_-', a, b)) == fin(M('difference', a, b))
+    else:                # subset order against union; strict = non-strict and different; converse operators
+        un = fin(M('union', a, b))
+        le, lt = F('#operator_<=', a, b), F('#operator_<', a, b)
+        ok = isinstance(le, bool) and isinstance(lt, bool) and le == (un == set(b)) and lt == (le and a != b)
+        ok = ok and F('#operator_>=', b, a) == le and F('#operator_>', b, a) == lt
     return H.done(ok)
 
 
 def law_dict(c: List[int], d: List[int], k: int, v: int) -> bool:
     """
-    pre: len(c) <= N and len(d) == len(c) and -1 <= k <= 3
-    pre: all(0 <= x <= 2 for x in c)
+    pre: len(c) <= N and len(d) == len(c) and -1 <= k <= H.P('emax', 1) + 1
+    pre: all(0 <= x <= H.P('emax', 1) for x in c)
     post: _
     """
     m = MD.FD(zip(c, d))
     before = dict(m)
     had = k in before
     upd = M('set', m, k, v)
-    ok = fin(M('get', upd, k)) == v and fin(M('containsKey', upd, k)) is True
-    ok = ok and fin(M('len', upd)) == len(before) + (0 if had else 1)
-    for kk, vv in before.items():
-        if kk != k:
-            ok = ok and fin(M('get', upd, kk)) == vv              # other keys untouched
-    ok = ok and dict(m) == before                                  # the receiver is not modified (persistence)
-    dele = M('delete', upd, k)
-    ok = ok and fin(M('containsKey', dele, k)) is False and fin(dele) == fin(M('delete', m, k))
-    ok = ok and fin(upd)[k] == v and dict(m) == before
-    ok = ok and fin(M('delete', m, k)) == dict((kk, vv) for kk, vv in before.items() if kk != k)
+    if H.P('part', 'set') == 'set':
+        ok = fin(M('get', upd, k)) == v and fin(M('containsKey', upd, k)) is True
+        ok = ok and fin(M('len', upd)) == len(before) + (0 if had else 1)
+        for kk, vv in before.items():
+            if kk != k:
+                ok = ok and fin(M('get', upd, kk)) == vv              # other keys untouched
+        ok = ok and dict(m) == before                                  # the receiver is not modified (persistence)
+    else:
+        dele = M('delete', upd, k)
+        ok = fin(M('containsKey', dele, k)) is False and fin(dele) == fin(M('delete', m, k))
+        ok = ok and fin(M('delete', m, k)) == dict((kk, vv) for kk, vv in before.items() if kk != k)
+        ok = ok and dict(m) == before and fin(upd)[k] == v
     return H.done(ok)
 
 
 def law_dict_roundtrip(c: List[int], d: List[int]) -> bool:
     """
     pre: len(c) <= N and len(d) == len(c)
-    pre: all(0 <= x <= 2 for x in c)
+    pre: all(0 <= x <= H.P('emax', 1) for x in c)
     post: _
     """
     m = MD.FD(zip(c, d))
@@ -450,7 +451,7 @@ def law_dict_roundtrip(c: List[int], d: List[int]) -> bool:
     # toDict . items = id ; dict(items) = id ; neutral elements of + and mergeWith
     ok = fin(F('dict', M('items', m))) == before
     ok = ok and fin(M('toDict', M('items', m), lambda p: p[0], lambda p: p[1])) == before
-    ok = ok and yq.ev('$m + {}', eng=MD.ENG, m=m) == before and fin(M('mergeWith', m, MD.FD())) == before
+    ok = ok and fin(F('#operator_+', m, MD.FD())) == before and fin(M('mergeWith', m, MD.FD())) == before
     ok = ok and fin(M('mergeWith', m, m)) == before and fin(M('mergeWith', MD.FD(), m)) == before
     return H.done(ok)
 
@@ -536,7 +537,12 @@ def pipe_run(sels, c, args, P):
 
 def pipe_check(sels, c, i1, k1, i2, k2, i3, k3):
     args = [{'i': i1, 'k': k1, 'c': tuple(c)}, {'i': i2, 'k': k2, 'c': tuple(c)}, {'i': i3, 'k': k3, 'c': tuple(c)}]
-    outs = [(pn, pipe_run(sels, c, args, PRES[pn])) for pn in ('tuple', 'iter')]
+    outs = []
+    for pn in ('tuple', 'iter'):
+        try:
+            outs.append((pn, pipe_run(sels, c, args, PRES[pn])))
+        except Exception as ex:
+            outs.append((pn, ('raised', type(ex).__name__)))
     ref = pipe_ref(sels, c, args)
     if ref is None:
         return True, None, None, None
@@ -549,7 +555,7 @@ def pipe_check(sels, c, i1, k1, i2, k2, i3, k3):
 def h_pipe(c: List[int], s2: int, s3: int, i1: int, k1: int, i2: int, k2: int, i3: int, k3: int) -> bool:
     """
     pre: len(c) <= N and s2 in S2SET
-    pre: 0 <= i1 <= len(c) + 1 and 0 <= i2 <= len(c) + 2
+    pre: 0 <= i1 <= len(c) + min(1, H.P('imargin', 2)) and 0 <= i2 <= len(c) + H.P('imargin', 2)
     pre: (0 <= s3 < NOPS and 0 <= i3 <= len(c) + 2) if H.P('depth', 2) >= 3 else (s3 == 0 and i3 == 0 and k3 == 0)
     pre: H.fresh(c, s2, s3, i1, k1, i2, k2, i3, k3)
     post: _
@@ -599,18 +605,18 @@ def lam_combos(cs, every):
     return [dict((s, l[n % len(l)]) for s, l in zip(slots, lists)) for n in range(width)]
 
 
-def cond_for(key, cs, lams, mode, n, nd, nones, margin, timeout, twin=True):
+def cond_for(key, cs, lams, mode, n, nd, nones, margin, timeout, twin=True, emax=2):
     name = key.split('/')[0]
     tag = ','.join('%s=%s' % kv for kv in sorted(lams.items()))
     bounds_txt = '%s via %s; len($c)<=%d%s%s; int arguments in [-len-%d,len+%d] within the documented domain%s; %s' % (
         key, 'context call API + #finalize' if mode == 'api' else 'YAQL text ' + repr(cs['text']), n,
         ', len($d)<=%d' % nd if 'd' in cs['uses'] else '',
         ', <=%d null element(s)' % nones if (cs['nones'] and nones) else ', no nulls', margin, margin,
-        ', elements in 0..2 and key constants in -1..3 (dictionary keys)' if cs['small'] else '',
+        ', elements in 0..%d and key constants in -1..%d (dictionary keys)' % (emax, emax + 1) if cs['small'] else '',
         'presented as ' + '+'.join(cs['pres']))
     return {'name': 'fn[%s|%s|%s|%s]' % (key, cs['id'], tag, mode), 'func': 'h_fn', 'timeout': timeout, 'twin': twin,
             'param': {'case': cs['id'], 'name': name, 'lams': lams, 'mode': mode, 'n': n, 'nd': nd, 'nones': nones,
-                      'margin': margin},
+                      'margin': margin, 'emax': emax},
             'bounds': bounds_txt}
 
 
@@ -634,21 +640,22 @@ def conditions(tier, seed):
             has_lam = bool(cs['lams'])
             for cn, lams in enumerate(combos):
                 if quick:
-                    n, nd, t, margin = (1 if alias else 2), 2, 90, 1
+                    n, nd, t, margin = (1 if alias else 2), 2, 200, 1
                     nones = 1 if cs['cost'] == 1 else 0
                     if cs['cost'] >= 3 and 'd' in cs['uses'] and cid != 'join':
                         nd = 1
                     if cs['api'] is not None:
                         if cn == 0:
-                            out.append(cond_for(key, cs, lams, 'api', n, nd, nones, margin, t))
+                            out.append(cond_for(key, cs, lams, 'api', n, nd, nones, margin, t, emax=1))
                         elif has_lam and cs['text'] and cn == 1 and not alias:
                             # the second lambda of the family goes through YAQL text (yaql lambda, parser-level call);
                             # half of these per run, rotated by VERIF_SEED
                             ntext += 1
                             if ntext % 2 == seed % 2:
-                                out.append(cond_for(key, cs, lams, 'text', n, nd, 0, margin, t, twin=False))
+                                out.append(cond_for(key, cs, lams, 'text', n, 1 if cs['cost'] >= 3 else nd, 0, margin,
+                                                    t, twin=False, emax=1))
                     elif cn == 0:
-                        out.append(cond_for(key, cs, lams, 'text', n, nd, nones, margin, t))
+                        out.append(cond_for(key, cs, lams, 'text', n, nd, nones, margin, t, emax=1))
                 else:
                     n = 3 if (has_lam or cs['cost'] >= 2 or 'd' in cs['uses']) else 4
                     nones = 2 if cs['cost'] < 3 else 1
@@ -668,34 +675,40 @@ def conditions(tier, seed):
                               'nones': 0, 'probe_key': K_INSERT},
                     'bounds': 'insert(position < 0, value) on a one-shot iterator, len <= 2'})
     # laws
-    lt = 100 if quick else 600
+    lt = 200 if quick else 600
     laws = [('law_order[asc]', 'law_order', {'desc': False}, 2), ('law_order[desc]', 'law_order', {'desc': True}, 2),
-            ('law_group[gtk]', 'law_group', {'key': 'gtk'}, 3), ('law_group[id]', 'law_group', {'key': 'id'}, 2),
-            ('law_lists', 'law_lists', {}, 2), ('law_split_enum', 'law_split_enum', {}, 2),
-            ('law_distinct', 'law_distinct', {}, 3), ('law_sets', 'law_sets', {}, 2),
-            ('law_set_order', 'law_set_order', {}, 2), ('law_dict', 'law_dict', {}, 2),
-            ('law_dict_roundtrip', 'law_dict_roundtrip', {}, 2), ('law_zip', 'law_zip', {}, 2)]
-    for f1 in ('orderBy', 'orderByDescending'):
-        for f2 in ('thenBy', 'thenByDescending'):
+            ('law_group[gtk]', 'law_group', {'key': 'gtk'}, 2), ('law_group[id]', 'law_group', {'key': 'id'}, 2),
+            ('law_lists[reverse]', 'law_lists', {'part': 'reverse'}, 2),
+            ('law_lists[take+skip]', 'law_lists', {'part': 'takeskip'}, 2), ('law_split_enum', 'law_split_enum', {}, 2),
+            ('law_distinct', 'law_distinct', {}, 2), ('law_zip', 'law_zip', {}, 2),
+            ('law_dict[set]', 'law_dict', {'part': 'set', 'emax': 1 if quick else 2}, 2),
+            ('law_dict[delete]', 'law_dict', {'part': 'delete', 'emax': 1 if quick else 2}, 2),
+            ('law_dict_roundtrip', 'law_dict_roundtrip', {'emax': 1 if quick else 2}, 2)]
+    for pn, part in enumerate('abcd'):
+        if not quick or pn % 2 == seed % 2:
+            laws.append(('law_sets[%s]' % part, 'law_sets', {'part': part}, 2))
+    combos = [(f1, f2) for f1 in ('orderBy', 'orderByDescending') for f2 in ('thenBy', 'thenByDescending')]
+    for cn, (f1, f2) in enumerate(combos):
+        if not quick or cn % 2 == seed % 2:
             laws.append(('law_thenby[%s,%s]' % (f1, f2), 'law_thenby', {'first': f1, 'then': f2}, 2))
     for name, func, param, n in laws:
         n = n if quick else n + 1
         out.append({'name': name, 'func': func, 'timeout': lt, 'param': dict(param, n=n),
-                    'bounds': 'model-free law, symbolic int list(s) len <= %d (+ null where meaningful), tuple and '
-                              'one-shot iterator' % n})
+                    'bounds': 'model-free law, symbolic int list(s) len <= %d (+ null where meaningful; dictionary keys '
+                              'in a small range), tuple and one-shot iterator' % n})
     # pipelines: first operator fixed per condition, second (third) by symbolic selector
     halves = [list(range(0, NOPS, 2)), list(range(1, NOPS, 2))]
     if quick:
-        third = [s for s in range(NOPS) if s % 6 == seed % 6]
-        for s1 in third:
-            for hn, half in enumerate(halves):
-                out.append({'name': 'pipe2[%s|%s]' % (OPS[s1][0], 'even' if hn == 0 else 'odd'), 'func': 'h_pipe',
-                            'timeout': 100, 'twin': hn == 0,
-                            'param': {'s1': s1, 'depth': 2, 'mode': 'api', 'n': 2, 's2set': half},
-                            'bounds': '$c.%s.<op2>: op2 chosen by a symbolic selector among %d lazy operators (half of '
-                                      'the table); len($c)<=2, symbolic int arguments and lambda constants; tuple and '
-                                      'one-shot iterator; every intermediate consumed once; call API'
-                                      % (OPS[s1][0], len(half))})
+        # per run: two first operators x one third of the second operators, rotated by VERIF_SEED (thorough: all)
+        for s1 in [s for s in range(NOPS) if s % 9 == seed % 9]:
+            tn = (seed // 9 + s1) % 3
+            third = list(range(tn, NOPS, 3))
+            out.append({'name': 'pipe2[%s|third%d]' % (OPS[s1][0], tn), 'func': 'h_pipe', 'timeout': 200,
+                        'param': {'s1': s1, 'depth': 2, 'mode': 'api', 'n': 2, 's2set': third, 'imargin': 0},
+                        'bounds': '$c.%s.<op2>: op2 chosen by a symbolic selector among %d lazy operators (a third of '
+                                  'the table); len($c)<=2, symbolic int arguments and lambda constants; tuple and '
+                                  'one-shot iterator; every intermediate consumed once; call API'
+                                  % (OPS[s1][0], len(third))})
     else:
         for s1 in range(NOPS):
             for hn, half in enumerate(halves):
